@@ -360,9 +360,14 @@ Aimed(p) == IF ReAsk # {} THEN p \in ReAsk ELSE (Interesting(p) \/ p \in asked)
 ModelHosts == {<<>>, <<"v",".","e","x","a","m","p","l","e">>}
 ModelPorts == {0, 61616}
 
-AddResource(s, p, r) == MayMutate /\ Do(MkOp("add", s, p, r, <<>>, NoFilter)) /\ UNCHANGED asked
-AddSite(s, p, c)     == MayMutate /\ Do(MkOp("addsite", s, p, c, <<>>, NoFilter)) /\ UNCHANGED asked
-Remove(s, p)         == MayMutate /\ Do(MkOp("remove", s, p, "", <<>>, NoFilter)) /\ UNCHANGED asked
+(* Mutations are biased towards the root's registrations at (prefixes of)    *)
+(* paths that were asked before; the others are thinned out at random.       *)
+Touches(s, p) == s = Root /\ p # <<>> /\ \E a \in asked : IsPrefixOf(p, a)
+Biased(s, p)  == ~WithQueries \/ asked = {} \/ Touches(s, p) \/ RandomElement(1..4) = 1
+
+AddResource(s, p, r) == MayMutate /\ Biased(s, p) /\ Do(MkOp("add", s, p, r, <<>>, NoFilter)) /\ UNCHANGED asked
+AddSite(s, p, c)     == MayMutate /\ Biased(s, p) /\ Do(MkOp("addsite", s, p, c, <<>>, NoFilter)) /\ UNCHANGED asked
+Remove(s, p)         == MayMutate /\ Biased(s, p) /\ Do(MkOp("remove", s, p, "", <<>>, NoFilter)) /\ UNCHANGED asked
 Request(p, q) ==
   /\ MayRequest /\ Aimed(p)
   /\ \E m \in {RandomElement(Methods)}, c \in {RandomElement(BOOLEAN)},
